@@ -1,4 +1,5 @@
 """C01 - rule verdicts equal the documented semantics (DESIGN section 5, C01)."""
+import os
 from common import *
 import core
 
@@ -13,6 +14,9 @@ def classify(verdict, payloads, line):
     return "verdict-mismatch"
 
 
+CLASSIFY_VK = lambda v, p, l: None if v in ("ok", "unknown") else ("vkey:" + ("deviation" if v == "dev" else "verdict-mismatch"))
+
+
 def run(tier):
     res = Result("C01", tier, "model_checking")
     res.assumptions = [
@@ -23,6 +27,11 @@ def run(tier):
     core.block_family(res, tier)
     n = 1500 if tier == "quick" else 12000
     core.record_and_judge(res, tier, n, ["core", "full"], classify)
+    # variable keys in the middle of a query (`map.%v.x`): an enumerated family through TraceEval
+    tr_vk = os.path.join(WORK, "trace_%s_vkey.ndjson" % res.prop)
+    gv(["record-vkey", "--out", tr_vk])
+    core.validate_trace(res, "TraceEval", tr_vk, CLASSIFY_VK)
+    os.remove(tr_vk)
     res.cov["rule"] = ("E1: every (query shape x quantifier x operator x right-hand side x document) state of MC_E1 "
                        "under 2-4 polarities; R: seeded random rule files x documents (generator gen.rs), every line "
                        "judged by TraceEval against Denote")
